@@ -247,7 +247,11 @@ def _build(t, xs, flags=None):
 # ------------------------------------------------------------------ typed generator
 
 def dyl(draw, n):
-    return [draw(st.sampled_from(DY)) for _ in range(n)]
+    v = [draw(st.sampled_from(DY)) for _ in range(n)]
+    # a vector constant that starts with an exact zero (seed C12-10: the 'has a constant' test looked at entry 0 only)
+    if n > 1 and draw(st.integers(0, 3)) == 0:
+        v[0] = 0.0
+    return v
 
 
 @st.composite
